@@ -17,8 +17,10 @@ A64_CONDS = ["EQ", "ne", "Ge", "lt", "*", "al", "HI"]
 PORT_POOLS = [["0", "1", "2", "3", "4", "5"], ["0", "0DV", "1", "2", "2D", "3", "3D", "4"], ["0", "1", "10", "11", "2D", "ST"]]
 CYCLES = [0.25, 0.5, 1, 1, 1, 1.5, 2, 3]
 
-BASES_X86 = ["zzadd", "zzmul", "zzmov", "zzfma", "zzcmp", "zzld", "zzshuf", "zzcvt"]
-BASES_A64 = ["qqadd", "qqmul", "qqmov", "qqfmla", "qqcmp", "qqldr", "qqstr", "qqdup"]
+# varied first letters: a special case keyed on how a mnemonic *starts* (e.g. VEX `v...`) must not go unnoticed
+BASES_X86 = ["zzadd", "zzmul", "zzmov", "zzfma", "zzcmp", "zzld", "zzshuf", "zzcvt", "vzzadd", "vzzcvtsi", "pzzshuf",
+             "kzzmov", "czzmov"]
+BASES_A64 = ["qqadd", "qqmul", "qqmov", "qqfmla", "qqcmp", "qqldr", "qqstr", "qqdup", "fqqadd", "sqqmul", "bqq"]
 
 
 def rand_case(rng, s):
